@@ -312,3 +312,122 @@ func asciiSafe(prog *syntax.Prog) bool {
 	}
 	return true
 }
+
+// ---- class-split concretisation ----
+//
+// For a concrete pattern, whether and where it matches depends only on which
+// of the pattern's character classes each subject rune belongs to. classSplit
+// forks over those classes for every symbolic byte (ASCII only) and returns a
+// concrete representative string on which the real regexp package can be run:
+// match positions on the representative are the match positions for every
+// string of that class combination.
+
+func classCuts(prog *syntax.Prog) []int {
+	cut := map[int]bool{0: true, 0x80: true}
+	add := func(lo, hi rune) {
+		if lo <= 0x7F {
+			cut[int(lo)] = true
+		}
+		if hi < 0x7F {
+			cut[int(hi)+1] = true
+		}
+	}
+	word := false
+	for i := range prog.Inst {
+		in := &prog.Inst[i]
+		switch in.Op {
+		case syntax.InstRune, syntax.InstRune1:
+			rs := in.Rune
+			if len(rs) == 1 {
+				add(rs[0], rs[0])
+				if syntax.Flags(in.Arg)&syntax.FoldCase != 0 {
+					r := rs[0]
+					if 'a' <= r && r <= 'z' {
+						add(r-32, r-32)
+					} else if 'A' <= r && r <= 'Z' {
+						add(r+32, r+32)
+					}
+				}
+			}
+			for k := 0; k+1 < len(rs); k += 2 {
+				add(rs[k], rs[k+1])
+			}
+		case syntax.InstRuneAnyNotNL:
+			add('\n', '\n')
+		case syntax.InstEmptyWidth:
+			op := syntax.EmptyOp(in.Arg)
+			if op&(syntax.EmptyWordBoundary|syntax.EmptyNoWordBoundary) != 0 {
+				word = true
+			}
+			if op&(syntax.EmptyBeginLine|syntax.EmptyEndLine) != 0 {
+				add('\n', '\n')
+			}
+		}
+	}
+	if word {
+		add('0', '9')
+		add('A', 'Z')
+		add('a', 'z')
+		add('_', '_')
+	}
+	var cs []int
+	for c := range cut {
+		cs = append(cs, c)
+	}
+	sortInts(cs)
+	return cs
+}
+
+func sortInts(a []int) {
+	for i := 1; i < len(a); i++ {
+		for j := i; j > 0 && a[j] < a[j-1]; j-- {
+			a[j], a[j-1] = a[j-1], a[j]
+		}
+	}
+}
+
+// classSplit returns a concrete representative of the symbolic subject after
+// forking over the pattern's character classes. ok=false: not applicable
+// (non-ASCII byte with a pattern that is not ASCII-only).
+func (p *Path) classSplit(r *regexp.Regexp, s []*Term) (string, bool) {
+	prog := compiledProg(r)
+	if prog == nil {
+		return "", false
+	}
+	cuts := classCuts(prog)
+	safe := asciiSafe(prog)
+	buf := make([]byte, len(s))
+	tc := &p.tc
+	for i, b := range s {
+		if b.Op == OConst {
+			buf[i] = byte(b.C)
+			continue
+		}
+		chosen := false
+		for k := 0; k < len(cuts); k++ {
+			lo := cuts[k]
+			hi := 0xFF
+			if k+1 < len(cuts) {
+				hi = cuts[k+1] - 1
+			}
+			var c *Term
+			if k+1 == len(cuts) {
+				c = tTrue
+			} else {
+				c = tc.Bin(OULe, b, Const(BV(8), uint64(hi)))
+			}
+			if p.branch(c) {
+				if lo >= 0x80 && !safe {
+					return "", false
+				}
+				buf[i] = byte(lo)
+				chosen = true
+				break
+			}
+		}
+		if !chosen {
+			return "", false
+		}
+	}
+	return string(buf), true
+}
